@@ -194,6 +194,34 @@ def work_multi(task):
                 continue
             if nseries > 1:
                 acc.nontrivial += 1
+        # series of mixed real dtypes: each is stacked by value, whatever its neighbours are
+        if nseries <= 3:
+            for dts in itertools.product((np.float64, np.float32, np.int64), repeat=nseries):
+                if all(d is np.float64 for d in dts):
+                    continue
+                series = []
+                for i, (T, dt) in enumerate(zip(lengths, dts)):
+                    base = (np.arange(T * N).reshape(T, N) * 7 + i * 3) % 50
+                    # float64 cells that float32 cannot hold, float32 cells with a fraction, integers
+                    series.append((base + 0.1).astype(np.float64) if dt is np.float64 else
+                                  (base + 0.25).astype(np.float32) if dt is np.float32 else base.astype(np.int64))
+                case = {"kind": "multi", "W": W, "N": N, "lengths": list(lengths), "variant": "dtypes",
+                        "dtypes": [np.dtype(d).name for d in dts]}
+                acc.n += 1
+                try:
+                    out = dp.stack_training_data_multiple_series(list(series), W)
+                except Exception as e:
+                    acc.fail(case, f"joint stacking of {case['dtypes']} series raised {type(e).__name__}: {e}")
+                    continue
+                ref = np.vstack([np.array([[float(s[i + j, c]) for j in range(W) for c in range(N)]
+                                           for i in range(s.shape[0] - W + 1)]).reshape(s.shape[0] - W + 1, N * W)
+                                 for s in series])
+                if not isinstance(out, np.ndarray) or out.shape != ref.shape or out.dtype != np.float64 \
+                        or not np.array_equal(out, ref):
+                    acc.fail(case, f"joint stacking of {case['dtypes']} series is not the concatenation of the individual "
+                                   f"stackings by value (dtype {getattr(out, 'dtype', None)})")
+                elif nseries > 1:
+                    acc.nontrivial += 1
         # split + pad restore one list per series of the original length
         stacked = [T - W + 1 for T in lengths]
         joint = list(range(100, 100 + sum(stacked)))
@@ -236,7 +264,7 @@ def run(ctx):
         "every (T,W,N) with W in 1..12, N in 1..6, T in W..W+40 (2952 triples), cells = pairwise distinct "
         "bit patterns incl. NaN payloads, inf, -0.0, denormals, compared as uint64 (for four T per (W,N) also as a column slice of a wider array, an every-other-row view and a Fortran-ordered array); every tuple of 1..6 series "
         "lengths from {W,W+1,W+3} for W in " + str(list(ws)) + " x N in {1,2}: joint stacking == vstack of "
-        "individual reference stackings (also with rows that are NaN on every sensor and with a series that is all +-0.0), call sequences in one process in three orders (output shapes collide across (W,N)), split+pad round trip; int64/float32/int8 inputs by value; "
+        "individual reference stackings (also with rows that are NaN on every sensor and with a series that is all +-0.0), for <= 3 series every assignment of {float64, float32, int64} to the series (by value), call sequences in one process in three orders (output shapes collide across (W,N)), split+pad round trip; int64/float32/int8 inputs by value; "
         "non-trivial = W>1 and T>W (single) or >= 2 series (multi)")
 
 
